@@ -43,7 +43,7 @@ func options() ggen.Options {
 		// (three- and four-digit numstat figures), names that are a prefix / suffix of another name,
 		// commits that import 10-30 files at once, author names with inner punctuation, up to 6 authors,
 		// path components that begin with a blank
-		ExecFiles: true, BigFiles: true, AffixNames: true, BulkAdds: true, PunctAuthors: true, MaxAuthors: 6,
+		ExecFiles: true, ModeChanges: true, BigFiles: true, AffixNames: true, BulkAdds: true, PunctAuthors: true, MaxAuthors: 6,
 		LeadingBlankPaths: !pbt.Excluded("path_leading_blank"),
 	}
 }
